@@ -105,12 +105,8 @@ func unboxParamsRound(pkgs []*packages.Package, overlay map[string][]byte) (map[
 				if !okFields || len(fields) == 0 || len(fields) > 6 {
 					continue
 				}
-				if f != structFile[sname] {
-					for _, ft := range ftext {
-						if strings.Contains(ft, ".") {
-							okFields = false // a qualified type: the other file may import it under another name
-						}
-					}
+				if !portableFieldTypes(pkg, sdecl, structFile[sname], f) {
+					okFields = false // a qualified type that this file imports under another name, or not at all
 				}
 				if !okFields {
 					continue
